@@ -470,16 +470,18 @@ where
     /// event exists in the future event set.
     #[allow(clippy::should_implement_trait)]
     fn dispatch_event(&mut self) -> bool {
-        if self.future_event_set.is_empty() {
+        let Some(next_time) = self.future_event_set.peek_time() else {
+            return true;
+        };
+
+        // Evaluate the limit on the upcoming event without removing it from the
+        // event set, so that a paused runtime keeps its event order and its
+        // lower bound for new events.
+        if self.limit.applies(self.itr + 1, next_time) {
             return true;
         }
 
         let (event, time) = self.future_event_set.fetch_next();
-
-        if self.limit.applies(self.itr + 1, time) {
-            self.future_event_set.add(time, event);
-            return true;
-        }
 
         self.itr += 1;
 
